@@ -55,14 +55,16 @@ def effDag (d : Dag) (kids : Nat → Tree E) : Dag :=
       | .leaf => d.onExec i
       | .comp _ _ _ _ => true }
 
+/-- a composite child finishes (`complete k`) only when its own loop has ended -/
+def okAct (kids : Nat → Tree E) : Act → Bool
+  | .complete k => (kids k).over
+  | _ => true
+
 /-- one action of the composite at `path` (child indices from the outermost composite down) -/
 def nstep (cfg : Cfg) : Tree E → List Nat → Act → Option (Tree E)
   | .leaf, _, _ => none
   | .comp d exc s kids, [], a =>
-    let ok : Bool := match a with
-      | .complete k => (kids k).over        -- a composite child finishes when its own loop has ended
-      | _ => true
-    if ok then (step cfg (effDag d kids) s a).map (fun s' => .comp d exc s' kids) else none
+    if okAct kids a then (step cfg (effDag d kids) s a).map (fun s' => .comp d exc s' kids) else none
   | .comp d exc s kids, k :: p, a =>
     if s.st k = .out then
       (nstep cfg (kids k) p a).map (fun t' => .comp d exc s (updF kids k t'))
